@@ -120,7 +120,7 @@ struct Outcome {
 }
 
 /// `fin`: the whole stream in one write and the client's FIN right behind it, before the server runs.
-fn run_stream(alpha: &[Elt], seq: &[usize], bytewise: bool, cuts: Option<&[usize]>, fin: bool) -> Result<Outcome, String> {
+fn run_stream(alpha: &[Elt], seq: &[usize], bytewise: bool, cuts: Option<&[usize]>, fin: bool, pace: u64) -> Result<Outcome, String> {
     let w = net::NetWorld::new(NetCfg::default())?;
     // prelude on its own connection: k = "5" flags 1
     let tok = {
@@ -177,6 +177,10 @@ fn run_stream(alpha: &[Elt], seq: &[usize], bytewise: bool, cuts: Option<&[usize
                 break;
             }
             chunks += 1;
+            // a slow sender: virtual seconds pass between two pieces (far below the idle timeout)
+            if pace > 0 {
+                w.advance(pace);
+            }
         }
     } else if fin {
         let _ = c.send(&w, &bytes);
@@ -354,7 +358,7 @@ fn run_stream(alpha: &[Elt], seq: &[usize], bytewise: bool, cuts: Option<&[usize
             format!(
                 "stream [{}] ({}): {} ; responses: {}",
                 names.join(" "),
-                if bytewise { "byte-at-a-time" } else if cuts.is_some() { "cut" } else if fin { "one segment, then FIN at once" } else { "one segment" },
+                if bytewise { "byte-at-a-time" } else if cuts.is_some() && pace > 0 { "cut, the pieces 2 s apart" } else if cuts.is_some() { "cut" } else if fin { "one segment, then FIN at once" } else { "one segment" },
                 what,
                 resps.iter().map(|r| format!("{}:{:#x}", wire::op_name(r.opcode), r.status)).collect::<Vec<_>>().join(" ")
             ),
@@ -508,7 +512,7 @@ pub fn quiet_vs_loud_long(tier: Tier, threads: usize) -> (u64, Vec<(String, Stri
             cases.push((*n, k));
         }
     }
-    let run = |n: usize, kind: &str, quiet: bool| -> Result<(Vec<wire::Resp>, u32, Content, bool), String> {
+    let run = |n: usize, kind: &str, quiet: bool, fin: bool| -> Result<(Vec<wire::Resp>, u32, Content, bool), String> {
         let w = net::NetWorld::new(NetCfg::default())?;
         let mut c = w.connect()?;
         let _ = c.step(&w, &Req::store(op::SET, b"ctr", b"0", 1, 0, 0).opaque(1).bytes());
@@ -526,6 +530,10 @@ pub fn quiet_vs_loud_long(tier: Tier, threads: usize) -> (u64, Vec<(String, Stri
         }
         bytes.extend(Req::bare(op::NOOP).opaque(0x7777).bytes());
         let lost = c.send(&w, &bytes).is_err();
+        if fin {
+            // fire and forget: the client's FIN is there before the server has run
+            c.shutdown_write(&w);
+        }
         for _ in 0..20_000 {
             w.settle();
             let before = c.got.len();
@@ -535,11 +543,27 @@ pub fn quiet_vs_loud_long(tier: Tier, threads: usize) -> (u64, Vec<(String, Stri
             }
         }
         let (resps, residue) = wire::split_responses(&c.got);
-        Ok((resps, residue as u32, content(&w.dump()), lost || c.eof))
+        Ok((resps, residue as u32, content(&w.dump()), lost || (c.eof && !fin)))
     };
     let res = par_map(&cases, threads, |_, (n, kind)| -> Result<Option<String>, String> {
-        let (lr, lres, lstore, llost) = run(*n, kind, false)?;
-        let (qr, qres, qstore, qlost) = run(*n, kind, true)?;
+        // the same pair of runs with the client's FIN right behind the burst: same answers, same store
+        {
+            let (lr, lres, lstore, llost) = run(*n, kind, false, true)?;
+            let (qr, qres, qstore, qlost) = run(*n, kind, true, true)?;
+            if llost || lres != 0 || lr.len() != n + 1 {
+                return Ok(Some(format!("with the client's FIN right behind the burst the loud run received {} responses ({} stray bytes), expected {}", lr.len(), lres, n + 1)));
+            }
+            if qlost || qres != 0 || qr.len() != 1 || lstore != qstore {
+                return Ok(Some(format!(
+                    "with the client's FIN right behind the burst the quiet run received {} response(s) and left {} items, the loud run {} items (expected one response and the same store)",
+                    qr.len(),
+                    qstore.len(),
+                    lstore.len()
+                )));
+            }
+        }
+        let (lr, lres, lstore, llost) = run(*n, kind, false, false)?;
+        let (qr, qres, qstore, qlost) = run(*n, kind, true, false)?;
         if llost || lres != 0 || lr.len() != n + 1 || lr.last().map(|r| (r.opcode, r.opaque)) != Some((op::NOOP, 0x7777)) {
             return Ok(Some(format!("the loud run received {} responses ({} stray bytes{}), expected {}", lr.len(), lres, if llost { ", connection lost" } else { "" }, n + 1)));
         }
@@ -636,6 +660,60 @@ pub fn unread_small_responses(tier: Tier) -> (u64, Vec<(String, String)>, Option
         match r {
             Ok(Some(what)) => out.push((format!("unread-small-responses|{}", kind), format!("a client pipelines {} requests without reading: {}", kind, what))),
             Ok(None) => {}
+            Err(e) => return (n, out, Some(e)),
+        }
+    }
+    // connections that are long gone - dropped by the idle timeout, reset, closed in the middle of a
+    // request - must not block new ones: after several rounds of such endings under a small
+    // connection limit a fresh connection is still served at once
+    for ending in ["idle-timeout", "reset", "close-mid-request"] {
+        n += 1;
+        crate::watchdog::working_on(format!("C16 socket: {} rounds of connections ending by {}, then a fresh one", 3, ending));
+        let r = (|| -> Result<Option<String>, String> {
+            let w = net::NetWorld::new(NetCfg { conn_limit: 2, ..Default::default() })?;
+            for round in 0..3 {
+                let mut cs = vec![w.connect()?, w.connect()?];
+                for (i, c) in cs.iter_mut().enumerate() {
+                    let _ = c.step(&w, &Req::bare(op::NOOP).opaque(0x10 + i as u32).bytes());
+                    if wire::split_responses(&c.got).0.len() != 1 {
+                        return Ok(Some(format!("round {}: connection #{} of 2 (limit 2) is not served although every earlier connection has ended", round, i)));
+                    }
+                }
+                match ending {
+                    "idle-timeout" => {
+                        w.advance(61);
+                        for c in cs.iter_mut() {
+                            c.pump();
+                        }
+                    }
+                    "reset" => {
+                        for c in cs.iter_mut() {
+                            c.abort(&w);
+                        }
+                    }
+                    _ => {
+                        let half = Req::store(op::SET, b"k", b"value", 0, 0, 0).bytes();
+                        for c in cs.iter_mut() {
+                            let _ = c.step(&w, &half[..30]);
+                            c.close(&w);
+                        }
+                    }
+                }
+                drop(cs);
+                w.settle();
+            }
+            let mut fresh = w.connect()?;
+            let io = fresh.step(&w, &Req::bare(op::NOOP).opaque(0x99).bytes());
+            if io.is_err() || wire::split_responses(&fresh.got).0.len() != 1 {
+                return Ok(Some("after three rounds a fresh connection is not served: connections that are gone still block new ones".into()));
+            }
+            Ok(None)
+        })();
+        crate::watchdog::idle();
+        match r {
+            Ok(Some(what)) => out.push((format!("gone-connections-block|{}", ending), format!("limit 2, two connections per round ending by {}: {}", ending, what))),
+            Ok(None) => {}
+            Err(e) if e.starts_with("connect:") => out.push((format!("gone-connections-block|{}", ending), format!("limit 2, connections ending by {}: {}", ending, e))),
             Err(e) => return (n, out, Some(e)),
         }
     }
@@ -755,17 +833,23 @@ pub fn check(tier: Tier, threads: usize) -> CheckOutcome {
     streams.dedup();
     crate::watchdog::working_on("C12 pipelined streams".into());
     let results = par_map(&streams, threads, |_, sq| -> Result<(Outcome, Outcome, Option<Outcome>), String> {
-        let a = run_stream(&alpha, sq, false, None, false)?;
-        let mut b = run_stream(&alpha, sq, true, None, false)?;
+        let a = run_stream(&alpha, sq, false, None, false, 0)?;
+        let mut b = run_stream(&alpha, sq, true, None, false, 0)?;
         // a stream with an oversized request is also delivered in three pieces cut inside that body
         if b.viol.is_none() {
             let mut off = 0usize;
             for (i, e) in sq.iter().enumerate() {
                 let len = alpha[*e].req(i as u32).bytes().len();
                 if matches!(alpha[*e], Elt::Oversized(..)) {
-                    let o = run_stream(&alpha, sq, false, Some(&[off + 24 + 100, off + len - 300]), false)?;
+                    let o = run_stream(&alpha, sq, false, Some(&[off + 24 + 100, off + len - 300]), false, 0)?;
                     if o.viol.is_some() {
                         b = o;
+                    } else {
+                        // ... and the same three pieces from a slow sender, 2 s apart
+                        let o = run_stream(&alpha, sq, false, Some(&[off + 24 + 100, off + len - 300]), false, 2)?;
+                        if o.viol.is_some() {
+                            b = o;
+                        }
                     }
                     break;
                 }
@@ -774,7 +858,7 @@ pub fn check(tier: Tier, threads: usize) -> CheckOutcome {
         }
         // the client that pipelines and half-closes at once: everything sent is still executed and answered
         if b.viol.is_none() {
-            let o = run_stream(&alpha, sq, false, None, true)?;
+            let o = run_stream(&alpha, sq, false, None, true, 0)?;
             if o.viol.is_some() {
                 b = o;
             }
@@ -784,7 +868,7 @@ pub fn check(tier: Tier, threads: usize) -> CheckOutcome {
         if tier == Tier::Thorough && sq.len() == 2 {
             let total: usize = sq.iter().enumerate().map(|(i, e)| alpha[*e].req(i as u32).bytes().len()).sum();
             for cut in 1..total {
-                let o = run_stream(&alpha, sq, false, Some(&[cut]), false)?;
+                let o = run_stream(&alpha, sq, false, Some(&[cut]), false, 0)?;
                 if o.viol.is_some() {
                     c = Some(o);
                     break;
@@ -943,8 +1027,8 @@ pub fn replay(v: &serde_json::Value) -> Result<Option<String>, String> {
         return Ok(a.map(|(s, w)| format!("{}: {}", s, w)));
     }
     for (bytewise, fin) in [(false, false), (true, false), (false, true)] {
-        let a = run_stream(&alpha, &sq, bytewise, None, fin)?.viol;
-        let b = run_stream(&alpha, &sq, bytewise, None, fin)?.viol;
+        let a = run_stream(&alpha, &sq, bytewise, None, fin, 0)?.viol;
+        let b = run_stream(&alpha, &sq, bytewise, None, fin, 0)?.viol;
         if a != b {
             return Err("two replays of the same stream differ".into());
         }
@@ -982,7 +1066,7 @@ pub fn correlation_across_connections(_tier: Tier, threads: usize) -> (u64, Vec<
             streams.push(vec![*u, b, 0]);
         }
     }
-    let res = par_map(&streams, threads, |_, sq| run_stream(&alpha, sq, false, None, false));
+    let res = par_map(&streams, threads, |_, sq| run_stream(&alpha, sq, false, None, false, 0));
     let mut viol: Vec<(String, String)> = vec![];
     let mut err = None;
     for r in res {
